@@ -29,9 +29,13 @@ def clock_scenario(policy, runs, line_level=True, tick=None):
     world = rtworld.RtWorld(sched, [], tick=tick or TICK)
     events = []
     try:
-        from bardolph.lib.clock import Clock
+        from bardolph.lib import i_lib, injection
         from bardolph.lib.time_pattern import TimePattern
-        clock = Clock()
+        clock = injection.provide(i_lib.Clock)            # as every Machine gets its clock
+        other = None
+        if runs and runs[0] and runs[0][0][0] == 'other':
+            # ('other', start after s, delay d): a second script with a clock of its own starts, waits and stops meanwhile
+            other, runs = runs[0][0], [runs[0][1:]] + runs[1:]
         tm = world.clock_mod.time
         script_tid = []
 
@@ -62,6 +66,14 @@ def clock_scenario(policy, runs, line_level=True, tick=None):
                 tm.sleep(0.625)          # let the old tick thread notice
 
         sched.spawn(script, name='script')
+        if other is not None:
+            def neighbour():
+                tm.sleep(other[1])
+                clock2 = injection.provide(i_lib.Clock)
+                clock2.start()
+                clock2.pause_for(other[2])
+                clock2.stop()
+            sched.spawn(neighbour, name='neighbour')
         sched.run()
     finally:
         world.close()
@@ -224,6 +236,8 @@ def run(report, replay=None):
         [[('tick', 1.25), ('pause', 1.5), ('pause', 0.0), ('work', 0.5), ('pause', 1.0)]],            # ticks further apart than the
         [[('tick', 2.5), ('pause', 0.5), ('pause', 3.0)], [('pause', 1.0)]],                          # clock's own one-second patience
         [[('tick', 1.5), ('pause', 1.0), ('until', '8:00'), ('pause', 2.0)]],
+        [[('other', 0.375, 0.25), ('pause', 1.0), ('pause', 0.5)]],                                   # another script's clock
+        [[('other', 0.125, 1.5), ('pause', 0.5), ('work', 0.25), ('pause', 0.5), ('pause', 0.75)]],   # is none of this one's business
     ]
     scenarios = fixed + [gen_runs(rng, i % 3 == 0, rng.choice([1, 1, 2])) for i in range(n_scen)]
     for runs in scenarios:
